@@ -201,6 +201,79 @@ def end_to_end(tier, seed):
 
 
 
+# ------------------------------------------------------------------ C17: the index against its definition on complete converged runs
+def chi_members(tier, seed):
+    """Calinski-Harabasz index of complete converged runs against the definition, with the cluster mean taken as the MEAN OF
+    THE WINDOWS THE RESULT LABELS WITH THAT CLUSTER (the contract of calinski_harabasz_index speaks about the stored
+    stacked_data_mean; whether that is the mean of the final members is a cross-phase fact no per-function contract sees).
+    The global centre is the scalar the code uses -- the per-column centroid is finding F7 and is kept apart."""
+    import logging
+    import fast_ticc
+    from fast_ticc import data_preparation
+
+    class Watch(logging.Handler):
+        converged = False
+
+        def emit(self, record):
+            if 'converged' in record.getMessage():
+                self.converged = True
+
+    watch = Watch()
+    lg = logging.getLogger('fast_ticc.main_loop')
+    old_level, old_prop = lg.level, lg.propagate
+    lg.setLevel(logging.INFO)
+    lg.addHandler(watch)
+    lg.propagate = False
+    levels = [np.array([4.0, 0.0, -2.0]), np.array([-3.0, 2.0, 1.0]), np.array([0.5, -4.0, 3.0])]
+    runs = [(3, 50, 0, [150, 150]), (3, 5, 1, [150, 150]), (2, 50, 0, [150, 150]), (3, 50, 3, [100, 60, 140, 80]), (3, 5, 2, [150, 150]),
+            (4, 5, 0, [150, 150])]
+    if tier != 'quick':
+        runs += [(3, 20, 5, [400, 300, 900, 300, 600])] + [(k, b, s, [120, 90, 150]) for k in (2, 3, 4) for b in (2, 20) for s in range(6, 12)]
+    fails, cases, small = [], 0, 0
+    try:
+        for (k, beta, sd, lengths) in runs:
+            rng = np.random.default_rng(sd)
+            series = np.concatenate([rng.normal(size=(n, 3)) + levels[i % 3] for i, n in enumerate(lengths)])
+            random.seed(sd)
+            np.random.seed(sd)
+            watch.converged = False
+            try:
+                r = quiet(fast_ticc.ticc_labels, series, window_size=2, num_clusters=k, label_switching_cost=beta, min_cluster_size=10,
+                          iteration_limit=50)
+            except (AssertionError, RuntimeError):
+                continue
+            if not watch.converged:
+                continue
+            cases += 1
+            X = np.asarray(data_preparation.stack_training_data(series, 2), dtype=float)
+            lab = np.array([x for x in r.point_labels if x >= 0])
+            g = float(np.mean(X))
+            B = Wd = 0.0
+            sizes = []
+            for c in range(k):
+                M = X[lab == c]
+                sizes.append(len(M))
+                if len(M):
+                    mu = M.mean(axis=0)
+                    B += len(M) * float(np.sum((mu - g) ** 2))
+                    Wd += float(np.sum((M - mu) ** 2))
+            want = (B / (k - 1)) / (Wd / (len(X) - k))
+            got = float(r.calinski_harabasz_index)
+            if abs(got - want) > 1e-7 * max(1.0, abs(want)):
+                tiny = min(sizes) < 2
+                small += tiny
+                what = 'chi-members:C17 converged run ending with a cluster of fewer than 2 windows: index uses cluster means of the repopulated partition, not of the final members' \
+                    if tiny else 'chi-members:C17 index differs from the definition in a converged run whose clusters all hold at least 2 windows'
+                fails.append(dict(what=what, detail='reported %.9g, definition %.9g' % (got, want),
+                                  input=dict(K=k, beta=beta, seed=sd, regime_lengths=lengths, window_size=2, min_cluster_size=10, final_cluster_sizes=sizes)))
+    finally:
+        lg.removeHandler(watch)
+        lg.setLevel(old_level)
+        lg.propagate = old_prop
+    return dict(kind='bounded', name='chi_members', cases=cases, failing=fails,
+                bound='%d complete converged single-series runs (300-2500 rows, 3 sensors, W=2, K<=4)' % cases)
+
+
 # ------------------------------------------------------------------ C09 / C12 / C13 / C16: what each phase was actually given
 class _InlinePool:
     """same interface as the pool the main loop creates; runs the task at submission in this process so that what
@@ -732,7 +805,7 @@ def fault_injection(tier, seed):
 
 
 CHECKS = dict(admm=admm, end_to_end=end_to_end, reproducibility=reproducibility, jit_differential=jit_differential,
-              readonly_inputs=readonly_inputs, fault_injection=fault_injection, phase_trace=phase_trace, forms_equivalence=forms_equivalence)
+              readonly_inputs=readonly_inputs, fault_injection=fault_injection, phase_trace=phase_trace, forms_equivalence=forms_equivalence, chi_members=chi_members)
 
 if __name__ == '__main__':
     name, tier, seed = sys.argv[1], sys.argv[2], int(sys.argv[3])
